@@ -1,5 +1,7 @@
 share_hooks("AlgoTravFront", "AlgoVolFront")    # calls of the generated Tree.traverse instantiations, static `isinstance`, …
 share_hooks("AlgoVolume", "AlgoVolFront")       # float literals / `sum` over a numeric type parameter, `nonlocal`
+share_hooks("AlgoTravFront", "AlgoVolMC")
+share_hooks("AlgoVolume", "AlgoVolMC")
 # C14 (T24 `volfront`): the front of the volume computation  ->  Gen/AlgoVolFront.lean
 #   swcgeom/analysis/volume.py::get_volume                        (the `accuracy` name table, the range assertion, the `match method:` dispatch;
 #                                                                  one instantiation per type of `accuracy`: `int` / `str`)
@@ -17,6 +19,10 @@ share_hooks("AlgoVolume", "AlgoVolFront")       # float literals / `sum` over a 
 #   (F5) an integer literal `0` / `1` where a value of a numeric type parameter is expected (`return 0` from a float function).
 #   (F6) `isinstance(x, str)` on a `String` is true, on an `Int` false (data of 04_travfront's static `isinstance`).
 MODULE_IMPORTS["AlgoVolFront"] = ["AlgoTravFront", "AlgoVolume"]
+# T30: the Monte-Carlo-only routine lives in its own module Gen/AlgoVolMC.lean, BELOW Gen/AlgoVolume.lean, so that `_get_volume_frustum_cone` calls it
+_VMC = "AlgoVolMC"
+MODULE_IMPORTS[_VMC] = ["AlgoTravFront"]
+MODULE_MODEL_IMPORTS[_VMC] = ["PyVolume", "PyVolFront"]
 MODULE_MODEL_IMPORTS["AlgoVolFront"] = ["PyVolume", "PyVolFront"]
 
 _ISINSTANCE["String"] = {"str": True, "int": False, "float": False, "list": False, "tuple": False, "dict": False}
@@ -281,7 +287,7 @@ spec(lean="get_volume_str", vars={"ids": "List Int", "pids": "List Int", "method
 #   `material = …`, `scene.set_background(…)`, `scene.build_bvh()`, `vmin, vmax = scene.bounding_box()`, `sampler = …`, `data = …` -> no effect on the
 #   modelled data;  `data.sum() / n_samples * np.subtract(vmax, vmin).prod()` -> `mcScene scene` (the Monte-Carlo estimate of the finished scene).
 _MF = ["(mcScene : List Py.Shape → K)"]
-spec(lean="mc_leave", module=_VFM, file=_VOL, func="_get_volume_frustum_cone_mc_only", nested="leave", params=["n", "children"],
+spec(lean="mc_leave", module=_VMC, file=_VOL, func="_get_volume_frustum_cone_mc_only", nested="leave", params=["n", "children"],
      num_tparams=["K"], fparams=_MF, captures=["scene"],
      vars={"n": "Int", "children": "List Shape", "scene": "List Shape", "sphere": "Shape", "c": "Shape", "fc": "Shape"}, ret="Shape",
      subst={"VolSphere(n.xyz(), n.r)": ("(Py.Shape.sphere v.n)", "Shape"),
@@ -289,7 +295,7 @@ spec(lean="mc_leave", module=_VFM, file=_VOL, func="_get_volume_frustum_cone_mc_
      stmt_subst={"scene.add_object(SDFObject(sphere.sdf, material).into())": "scene.append(sphere)",
                  "scene.add_object(SDFObject(fc.sdf, material).into())": "scene.append(fc)"},
      doc=f"`{_VOL}::_get_volume_frustum_cone_mc_only`, nested `leave` (the scene is the list of the shapes added to it)")
-spec(lean="get_volume_mc_only", module=_VFM, file=_VOL, func="_get_volume_frustum_cone_mc_only", params=["ids", "pids"],
+spec(lean="get_volume_mc_only", module=_VMC, file=_VOL, func="_get_volume_frustum_cone_mc_only", params=["ids", "pids"],
      num_tparams=["K"], fparams=_MF, tree_cols={"tree": {"id": "ids", "pid": "pids"}}, closures={"leave": "mc_leave"},
      vars={"ids": "List Int", "pids": "List Int", "scene": "List Shape", "n_samples": "Int", "volume": "K"}, ret="K", fuel=True,
      skip_stmts=["material = ColoredMaterial((1, 0, 0)).into()", "scene.set_background((0, 0, 0))", "scene.build_bvh()",
